@@ -723,7 +723,29 @@ fn gen_ext_task(rng: &mut Rng, origin: String) -> ExtTask {
     };
     // proof outline
     let mut po = vec![];
-    let k = g.rng.below(4);
+    let def_heavy = g.rng.chance(1, 6);
+    if def_heavy {
+        // several definitions with direction annotations, names drawn from a pool of two (so that a predicate is
+        // now and then defined twice, after a directional or a universal first definition), then a lemma using them
+        let names = ["d", "e"];
+        let nd = 2 + g.rng.below(2);
+        for i in 0..nd {
+            let direction = *g.rng.pick(&[fol::Direction::Universal, fol::Direction::Forward, fol::Direction::Backward]);
+            let x = fol::Variable { name: "X".into(), sort: fol::Sort::General };
+            let dname = names[g.rng.below(2)];
+            let lhs = atom1(dname, x.clone().into());
+            let rhs = match g.rng.below(3) {
+                0 => atom1("in1", x.clone().into()),
+                1 => fol::Formula::UnaryFormula { connective: fol::UnaryConnective::Negation, formula: Box::new(atom1("in1", x.clone().into())) },
+                _ => atom1(if i > 0 { names[g.rng.below(2)] } else { "out1" }, x.clone().into()),
+            };
+            po.push(fol::AnnotatedFormula { role: fol::Role::Definition, direction, name: format!("df{i}"), formula: fol::Formula::QuantifiedFormula { quantification: fol::Quantification { quantifier: fol::Quantifier::Forall, variables: vec![x.clone()] }, formula: Box::new(fol::Formula::BinaryFormula { connective: fol::BinaryConnective::Equivalence, lhs: Box::new(lhs), rhs: Box::new(rhs) }) } });
+        }
+        let x = fol::Variable { name: "X".into(), sort: fol::Sort::General };
+        po.push(fol::AnnotatedFormula { role: fol::Role::Lemma, direction: *g.rng.pick(&[fol::Direction::Universal, fol::Direction::Forward, fol::Direction::Backward]), name: "lm".into(),
+            formula: fol::Formula::QuantifiedFormula { quantification: fol::Quantification { quantifier: fol::Quantifier::Forall, variables: vec![x.clone()] }, formula: Box::new(fol::Formula::BinaryFormula { connective: fol::BinaryConnective::Implication, lhs: Box::new(atom1(names[g.rng.below(2)], x.clone().into())), rhs: Box::new(atom1("out1", x.into())) }) } });
+    }
+    let k = if def_heavy { 0 } else { g.rng.below(4) };
     for i in 0..k {
         let direction = *g.rng.pick(&[fol::Direction::Universal, fol::Direction::Forward, fol::Direction::Backward]);
         let name = if g.rng.chance(2, 3) { format!("l{i}") } else { String::new() };
@@ -751,7 +773,8 @@ fn gen_ext_task(rng: &mut Rng, origin: String) -> ExtTask {
             0 => {
                 // definition of a fresh predicate
                 let x = fol::Variable { name: "X".into(), sort: if g.rng.chance(1, 3) { fol::Sort::Integer } else { fol::Sort::General } };
-                let dname = if sloppy && g.rng.chance(1, 3) { "out1".to_string() } else { format!("def{i}") };
+                // now and then a predicate that an earlier (possibly directional) definition already defines
+                let dname = if sloppy && g.rng.chance(1, 3) { "out1".to_string() } else if i > 0 && g.rng.chance(1, 3) { format!("def{}", g.rng.below(i)) } else { format!("def{i}") };
                 let lhs = atom1(&dname, x.clone().into());
                 let rhs = if g.rng.chance(1, 2) { atom1("in1", x.clone().into()) } else { fol::Formula::BinaryFormula { connective: fol::BinaryConnective::Conjunction, lhs: Box::new(atom1("out1", x.clone().into())), rhs: Box::new(atom1(if sloppy && g.rng.chance(1, 3) { "undefined" } else { "in1" }, if sloppy && g.rng.chance(1, 4) { fol::GeneralTerm::Variable("Y".into()) } else { x.clone().into() })) } };
                 let vars = if sloppy && g.rng.chance(1, 4) { vec![x.clone(), x.clone()] } else { vec![x.clone()] };
@@ -792,7 +815,45 @@ fn gen_ext_task(rng: &mut Rng, origin: String) -> ExtTask {
             }
         }
     }
+    // one task in four is *plain*: no arithmetic, constants from a tiny pool, no proof outline - the class on which
+    // the bounded search for a concrete failing input evaluates the reference semantics exactly
+    let plain = !sloppy && g.rng.chance(1, 4);
+    if plain {
+        let program = plainify(program);
+        let spec = match spec {
+            either::Either::Left(p) => either::Either::Left(plainify(p)),
+            other => other,
+        };
+        return ExtTask { origin, spec, program, ug, po: fol::Specification { formulas: vec![] } };
+    }
     ExtTask { origin, spec, program, ug, po: fol::Specification { formulas: po } }
+}
+
+fn plain_term(t: asp::Term) -> asp::Term {
+    use asp::PrecomputedTerm as P;
+    match t {
+        asp::Term::Variable(v) => asp::Term::Variable(v),
+        asp::Term::PrecomputedTerm(P::Numeral(n)) => asp::Term::PrecomputedTerm(P::Numeral(n.rem_euclid(2))),
+        asp::Term::PrecomputedTerm(P::Symbol(s)) => asp::Term::PrecomputedTerm(P::Symbol(if ["a", "n", "c"].contains(&s.as_str()) { s } else { "a".into() })),
+        asp::Term::PrecomputedTerm(p) => asp::Term::PrecomputedTerm(p),
+        asp::Term::UnaryOperation { arg, .. } => plain_term(*arg),
+        asp::Term::BinaryOperation { lhs, .. } => plain_term(*lhs),
+    }
+}
+
+fn plainify(p: asp::Program) -> asp::Program {
+    let atom = |a: asp::Atom| asp::Atom { predicate_symbol: a.predicate_symbol, terms: a.terms.into_iter().map(plain_term).collect() };
+    asp::Program { rules: p.rules.into_iter().map(|r| asp::Rule {
+        head: match r.head {
+            asp::Head::Basic(a) => asp::Head::Basic(atom(a)),
+            asp::Head::Choice(a) => asp::Head::Choice(atom(a)),
+            asp::Head::Falsity => asp::Head::Falsity,
+        },
+        body: asp::Body { formulas: r.body.formulas.into_iter().map(|f| match f {
+            asp::AtomicFormula::Literal(l) => asp::AtomicFormula::Literal(asp::Literal { sign: l.sign, atom: atom(l.atom) }),
+            asp::AtomicFormula::Comparison(c) => asp::AtomicFormula::Comparison(asp::Comparison { relation: c.relation, lhs: plain_term(c.lhs), rhs: plain_term(c.rhs) }),
+        }).collect() },
+    }).collect() }
 }
 
 /// Writes `n` generated external-equivalence tasks (and strong-equivalence program pairs) as
